@@ -42,7 +42,7 @@ class C17(Check):
     technique = ('machine-checked proof (Coq 8.16.1) about an executable Gallina model of Sha256.cpp/Sha256.hpp (refinement to a '
                  'transcription of FIPS 180-4 / RFC 2104, by invariant + induction over histories) + differential correspondence of the '
                  'extracted model and spec with the ASan/UBSan build of the code')
-    level_text = ('Theorems in Coq (16, all closed under the global context), about the model of Sha256 (streaming update with the '
+    level_text = ('Theorems in Coq (17, all closed under the global context), about the model of Sha256 (streaming update with the '
                   '64-byte buffer, Transform with the rolling 16-word window and the rotating register file, finalize with its padding '
                   'loop, hmac on one reused hasher): Transform = the FIPS 180-4 compression function for every state and block; an '
                   'invariant "hasher p has absorbed message m" holds initially and is preserved by update for every chunk, by '
@@ -62,7 +62,18 @@ class C17(Check):
                   'and random lengths in 1025..4096, single update()/hash()/hmac() calls of 9..12 KB through model and spec and of '
                   '2^20 + 3 / 2^24 + 5 bytes (thorough: 2^29 + 64 and 2^32 + 5 bytes in ONE call) against python hashlib, and - white '
                   'box, against the model only - finalize()/update() from counter values around 2^29, 2^32, 2^35 ... 2^61, 2^64 - 1, '
-                  'so that all eight bytes of the bit-length field are exercised.')
+                  'so that all eight bytes of the bit-length field are exercised. Round 6: independent hashers - '
+                  'independent_hashers_refine_spec: n hashers under ANY interleaving of their operations each show the spec\'s '
+                  'observations for their own operations (the model shares nothing between two hashers); tied to the code by op '
+                  '`threads` (stream `threads`: 2..4 pthreads, each with its OWN Sha256 object - or its own static hash()/hmac() '
+                  'calls - and its own message of 2..10 blocks, started together on a barrier, 12000 rounds (thorough 60000), every '
+                  'thread\'s digest judged against model and spec) and by the translator, which refuses any storage of static '
+                  'duration in Sha256.cpp/.hpp other than the constant table K. Objects are NOT shared between threads: two '
+                  'threads calling update()/finalize() on ONE hasher is outside the text (a hasher absorbs one message) and is not '
+                  'exercised. Also round 6: hmac()/hash() whose result buffer lies inside the key or message buffer (ops hmacalias / '
+                  'hashalias, stream `alias`: key ratchet k = HMAC(k, label), every offset class) - the arguments of a call are the '
+                  'bytes the buffers hold when it is made; "for every key length and every message" has no exception for a caller that '
+                  'stores the result over an input.')
     level_note = ('Trusted: Coq kernel, the FIPS 180-4 / RFC 2104 transcription (ShaSpec.v; guarded by five known-answer Examples: '
                   'FIPS "abc", RFC 4231 cases 2 and 6, HMAC with a key of exactly 64 bytes (NIST CSRC example) and of 65 bytes, '
                   'and by python hashlib/hmac in extra_checks), extraction + OCaml driver, harness, '
@@ -86,7 +97,15 @@ class C17(Check):
                   'its counter in another representation would differ there without breaking the property. Messages of >= 2^37 '
                   'bytes (bytes 0..2 of the length field non-zero) are reached ONLY this way; end-to-end they are out of reach of '
                   'both tiers (30 MB/s under ASan). Not tied: a single call longer than 2^32 + 5 bytes; hmac keys or messages >= 2^32 bytes; '
-                  'aliasing of hmac\'s result with key or message. '
+                  'aliasing of key with message, or of update()\'s argument with the hasher object itself. '
+                  'Threads (round 6): op `threads` depends on the scheduler only when the library shares state between unrelated '
+                  'hashers; on the unchanged tree its output is deterministic (no shared state, checked under load), on a tree with '
+                  'shared state every case of the stream showed a wrong digest on 16, 2 and 1 cores (12000 rounds of 2..10 blocks per '
+                  'thread: thousands of preemptions inside Transform), but a replay of such a case is in principle probabilistic. The '
+                  'model has no threads: the driver runs every thread\'s operations on a machine of its own (theorem '
+                  'independent_hashers_refine_spec says that this is what any interleaving gives); interleavings below the '
+                  'granularity of one operation exist only in the code and are covered by the dynamic run and the syntactic '
+                  '"no static storage but K" guard, not by a theorem. '
                   'Side conditions of the theorems: bytes are 0..255 and everything that is finalized is shorter '
                   'than 2^61 bytes (beyond that the 64-bit bit counter of the code wraps; not reachable by a test). The theorems are '
                   'about the model; that the C++ computes what the model computes is validated by correspondence only (no clause of '
@@ -100,11 +119,13 @@ class C17(Check):
             'hasher after finalize/reset or sets the counter (white box); long messages: 8191..8193 bytes, 64 KiB + 39 bytes (op updrep = the same chunk '
             'absorbed n times) through model and spec, 1/2/3 MiB (thorough: 2^29+, 2^32+ bytes) through op updrepx judged by '
             'python hashlib; long single calls: ops updfill/hashfill/hmacfill (n pattern bytes in ONE call) through model and spec, '
-            '...x variants judged by python hashlib/hmac; op setcount (white box) judged by the model only; distinct = distinct op text')
+            '...x variants judged by python hashlib/hmac; op setcount (white box) judged by the model only; op threads (N threads with private hashers, judged per thread by model and spec); ops '
+            'hmacalias / hashalias (result buffer inside an input buffer); distinct = distinct op text')
     assumptions = ['message length < 2^61 bytes (bit counter of the code wraps beyond)',
                    'input bytes are in 0..255 (wf_bytes)',
                    'FIPS 180-4 / RFC 2104 transcription in coq/Sha/ShaSpec.v (guarded by known-answer Examples)',
                    'messages >= 2^37 bytes: the code\'s finalize() is tied to the model only from a poked counter (white-box op setcount), not end-to-end',
+                   'hasher objects are not shared between threads (each thread uses its own Sha256 object / its own static calls)',
                    'a 32-bit size/counter slip is reported with a failing input in the thorough tier only (quick: the counter slips as '
                    'white-box correspondence, a 32-bit size of a single call not at all)']
 
@@ -119,7 +140,7 @@ class C17(Check):
                 tot += int(t[2]) if t[1] != '-' else 0
             elif l.startswith(('upd', 'hash')) and t[1] != '-':
                 tot += len(t[1]) // 2 * (int(t[2]) if t[0].startswith('updrep') else 1)
-        return (tot >= 56 or any(l.startswith(('hmac', 'setcount')) for l in case)
+        return (tot >= 56 or any(l.startswith(('hmac', 'setcount', 'threads', 'hashalias')) for l in case)
                 or sum(1 for l in case if l in ('fin', 'reset')) >= 2)
 
     def streams(self, tier, rng):
@@ -202,6 +223,50 @@ class C17(Check):
             cases.append(ops + ['fin', 'upd ' + hexs(content(rng, 3, 0)), 'fin'])
         out.append(Stream('counter', cases, note='WHITE BOX: byte counter set (private member) to values around 2^29 ... 2^64 before the last '
                           'update/finalize; compared with the MODEL only (all eight bytes of the length field, counter crossings)'))
+        # independent hashers in different threads: N (2..4) pthreads, each with its OWN Sha256 object (or its own static
+        # hash()/hmac() calls), its own message of several blocks, all started together and repeated for many rounds so that
+        # the Transform calls of different objects overlap in time.  Nothing is shared between the threads, so model and
+        # spec (which have no threads) predict every thread's digest from its own message alone.
+        rounds = 60000 if thorough else 12000
+        cases = []
+        for n in (2, 3, 4, 4):
+            ms = [content(rng, rng.choice([130, 200, 257, 320, 448, 600]), 0) for _ in range(n)]
+            cases.append(['threads upd %d %d %s' % (rounds, rng.choice([0, 1, 61, 64, 77]), ' '.join(hexs(m) for m in ms))])
+        ms = [content(rng, rng.randrange(120, 400), 0) for _ in range(4)]
+        cases.append(['threads hash %d 0 %s' % (rounds, ' '.join(hexs(m) for m in ms))])
+        for n in (3, 4):
+            km = [(content(rng, rng.choice([0, 20, 64, 65, 131]), 0), content(rng, rng.randrange(60, 300), 0)) for _ in range(n)]
+            cases.append(['threads hmac %d 0 %s' % (rounds // 2, ' '.join(hexs(k) + ' ' + hexs(m) for k, m in km))])
+        # the hasher of the enclosing history is untouched by what other threads hash in the meantime
+        ms = [content(rng, 200, 0) for _ in range(3)]
+        cases.append(['upd ' + hexs(content(rng, 70, 0)), 'threads upd %d 50 %s' % (rounds // 2, ' '.join(hexs(m) for m in ms)),
+                      'upd ' + hexs(content(rng, 70, 3)), 'fin'])
+        if thorough:
+            for _ in range(8):
+                n = rng.randrange(2, 5)
+                ms = [content(rng, rng.randrange(65, 700), rng.randrange(5)) for _ in range(n)]
+                cases.append(['threads upd %d %d %s' % (rounds, rng.choice([0, 7, 64, 100]), ' '.join(hexs(m) for m in ms))])
+        out.append(Stream('threads', cases, note='2..4 threads, each with its own Sha256 object / its own hash() or hmac() calls and its own '
+                          'message (2..10 blocks), started together, %d rounds; no object or buffer is shared between threads' % rounds))
+        # hmac()/hash() whose result buffer lies inside the key or the message buffer (key ratchet k = HMAC(k, label); digest
+        # written over the message): the arguments of the call are the bytes the buffers hold when the call is made
+        cases = []
+        for kl in (0, 1, 16, 31, 32, 33, 48, 63, 64, 65, 100, 200):
+            for off in sorted({0, kl // 2, max(0, kl - 32), rng.randrange(0, kl + 1)}):
+                cases.append(['hmacalias k %d %s %s' % (off, hexs(content(rng, kl, 0)), hexs(content(rng, rng.choice([0, 5, 32, 64, 150]), 0)))])
+        for ml in (0, 1, 31, 32, 33, 55, 64, 65, 128, 300):
+            for off in sorted({0, ml // 2, max(0, ml - 32), rng.randrange(0, ml + 1)}):
+                cases.append(['hmacalias m %d %s %s' % (off, hexs(content(rng, rng.choice([0, 20, 32, 64, 65, 100]), 0)), hexs(content(rng, ml, 0)))])
+                cases.append(['hashalias %d %s' % (off, hexs(content(rng, ml, 0)))])
+        # a ratchet on one history: k1 = HMAC(k0, label) written over k0, three steps (each step judged on its own)
+        k = content(rng, 32, 0)
+        ops = []
+        for lbl in (b'a', b'label-2', content(rng, 70, 0)):
+            ops.append('hmacalias k 0 %s %s' % (hexs(k), hexs(lbl)))
+            k = pyhmac.new(k, lbl, hashlib.sha256).digest()
+        cases.append(ops)
+        out.append(Stream('alias', cases, note='hmac() with the result buffer inside the key buffer (key ratchet) or inside the message '
+                          'buffer, hash() with the result inside the message buffer; every offset class (start, middle, tail, beyond the end)'))
         # 2-way chunkings: all split points for a set of boundary lengths (all lengths in thorough)
         cases = []
         lens = range(0, 301) if thorough else [0, 1, 54, 55, 56, 57, 63, 64, 65, 111, 119, 120, 127, 128, 129, 183, 184, 191, 192, 193, 255, 256, 300]
